@@ -69,17 +69,17 @@ type Options struct {
 }
 
 type World struct {
-	Net     *simnet.Net
-	Proxy   *forwarder.HTTPProxy
-	Reg     *prometheus.Registry
-	Log     *MemLog
-	Cfg     *forwarder.HTTPProxyConfig
-	Addr    string
-	cancel  context.CancelFunc
-	runErr  chan error
-	stopped bool
-	nclient int
-	servers []*Server
+	Net        *simnet.Net
+	Proxy      *forwarder.HTTPProxy
+	Reg        *prometheus.Registry
+	Log        *MemLog
+	Cfg        *forwarder.HTTPProxyConfig
+	Addr       string
+	cancel     context.CancelFunc
+	runErr     chan error
+	stopped    bool
+	nclient    int
+	servers    []*Server
 	probeConns []*Peer
 }
 
@@ -363,9 +363,59 @@ func (p *Peer) SendNoWait(b []byte) error {
 // Recv returns everything received so far (cumulative).
 func (p *Peer) Recv() []byte {
 	if !p.Hold {
-		p.buf = append(p.buf, p.C.Take()...)
+		nb := p.C.Take()
+		scanPoison(p.C.Name, p.buf, nb)
+		p.buf = append(p.buf, nb...)
 	}
 	return p.buf
+}
+
+// ---- pool poison (engine/vpool, vsync.Pool): storage released to a sync.Pool is overwritten with 0xDB;
+// bytes of that pattern arriving at a scripted peer prove that the proxy sent memory it had already released.
+
+var (
+	poisonMu   sync.Mutex
+	poisonSeen string
+)
+
+const poisonRun = 8
+
+func scanPoison(where string, old, nb []byte) {
+	if len(nb) == 0 {
+		return
+	}
+	// include the tail of what was received before so that a run split across segments is seen
+	k := len(old) - (poisonRun - 1)
+	if k < 0 {
+		k = 0
+	}
+	b := append(append([]byte{}, old[k:]...), nb...)
+	run := 0
+	for i, c := range b {
+		if c == 0xDB {
+			run++
+			if run >= poisonRun {
+				poisonMu.Lock()
+				if poisonSeen == "" {
+					poisonSeen = fmt.Sprintf("%s received released pool memory (a run of 0x%X bytes) at stream offset %d", where, 0xDB, k+i-poisonRun+1)
+				}
+				poisonMu.Unlock()
+				return
+			}
+		} else {
+			run = 0
+		}
+	}
+}
+
+// Poisoned reports the first sighting of pool poison at a scripted peer in this process since the last
+// call (and clears it).
+func Poisoned() string {
+	poisonMu.Lock()
+	defer poisonMu.Unlock()
+	s := poisonSeen
+	poisonSeen = ""
+	return s
 }
 
 // RecvNew returns only the bytes that arrived since the last call to Recv/RecvNew.
@@ -520,7 +570,6 @@ func (l *memLogger) With(args ...any) log.StructuredLogger {
 	return &memLogger{m: l.m, name: l.name, with: append(append([]any{}, l.with...), args...)}
 }
 
-
 // Bubble runs fn as the root of a synctest bubble and converts a panic of the root function (or the
 // bubble's "blocked goroutines remain" deadlock report) into return values instead of killing the process.
 func Bubble(t interface {
@@ -595,8 +644,12 @@ func Repanic(x failer, p any) {
 
 // Run executes scenario f(x) inside a fresh synctest bubble (helper shared by all Engine S checks).
 func Run(t *testing.T, x failer, f func()) {
+	Poisoned()
 	if p := Bubble(t, func(g func()) { synctest.Test(t, func(*testing.T) { g() }) }, f); p != nil {
 		Repanic(x, p)
+	}
+	if p := Poisoned(); p != "" {
+		x.Failf("use-after-pool-put", "the proxy sent memory it had already released to a sync.Pool: %s", p)
 	}
 }
 
